@@ -1052,7 +1052,7 @@ type gtCfg struct {
 	suffix    string         // ... under the name src_<pkg>_<name>_<suffix>
 	fuel      map[int]string // loop number (source order, from 1) -> Go expression over what is in scope at the loop: iterations + 1 at most
 	ignore    []string       // calls (as statements) of these package functions are skipped: hooks without a body in the build under check
-	argsOf    string         // fragment: the list of the first arguments of every call of a method of this name, in source order
+	litsOf []string // fragment: the constant string arguments of every call of a method with one of these names, in source order (a list)
 }
 
 type gtState struct {
@@ -1722,6 +1722,40 @@ func gtFamily(name string, items []gtItem) {
 					c := constEx(v, t)
 					name := "src_" + p.name + "_" + it.key[6:]
 					st.pending = append(st.pending, fmt.Sprintf("(* %s: const %s *)\nDefinition %s : %s := %s.\n", p.dir, it.key[6:], name, t.coq(), c.code))
+					fn = &gtFn{status: 2, coqName: name}
+					return
+				}
+				if it.cfg != nil && len(it.cfg.litsOf) > 0 {
+					p := g.gtPkg(it.dir)
+					fd := p.funcs[it.key]
+					if fd == nil || fd.Body == nil {
+						gtFail("function not found")
+					}
+					var lits, shown []string
+					ast.Inspect(fd.Body, func(n ast.Node) bool {
+						c, ok := n.(*ast.CallExpr)
+						if !ok {
+							return true
+						}
+						sel, ok := c.Fun.(*ast.SelectorExpr)
+						if !ok {
+							return true
+						}
+						for _, m := range it.cfg.litsOf {
+							if sel.Sel.Name == m {
+								for _, a := range c.Args {
+									if v, _, ok := g.constEval(p, p.funcIn[it.key], a, -1, func(string) bool { return false }); ok && v.Kind() == constant.String {
+										lits = append(lits, bstrLit(constant.StringVal(v)))
+										shown = append(shown, fmt.Sprintf("%q", constant.StringVal(v)))
+									}
+								}
+							}
+						}
+						return true
+					})
+					name := coqFnName(p, it.key, it.cfg.suffix)
+					st.pending = append(st.pending, fmt.Sprintf("(* %s: the constant string arguments of the calls of %s in %s, in source order:\n   %s *)\nDefinition %s : list bstr :=\n  [%s].\n",
+						p.dir, strings.Join(it.cfg.litsOf, " / "), it.key, strings.ReplaceAll(strings.ReplaceAll(strings.Join(shown, " "), "(*", "( *"), "*)", "* )"), name, strings.Join(lits, ";\n   ")))
 					fn = &gtFn{status: 2, coqName: name}
 					return
 				}
